@@ -44,6 +44,7 @@ type verifEvent struct {
 type verifWorld struct {
 	events    []verifEvent
 	ttys      map[int]*verifTTY
+	consoles  map[int]*verifConsole
 	fontNames []string
 }
 
@@ -79,15 +80,166 @@ func (d *verifBase) DriverInit(w io.Writer) *kernel.Error {
 
 type verifOther struct{ verifBase }
 
-type verifConsole struct{ verifBase }
+// verifConsole is a cell-level reference console: every Write / Fill / Scroll is applied to a grid of
+// (character, fg, bg) cells (the semantics of coq/theories/Console/Grid.v, as in the C18 harness:
+// coordinates are 1-based, out-of-range writes are ignored, Fill clips to the console, Scroll keeps the
+// old content in the vacated lines). Its geometry depends on the driver id so that wrapping, the
+// scrollback and scrolling of the attached terminal are all reached.
+type verifCell struct{ ch, fg, bg uint8 }
 
-func (c *verifConsole) Dimensions(console.Dimension) (uint32, uint32) { return 80, 25 }
-func (c *verifConsole) DefaultColors() (uint8, uint8)                  { return 7, 0 }
-func (c *verifConsole) Fill(x, y, w, h uint32, fg, bg uint8)           {}
-func (c *verifConsole) Scroll(console.ScrollDir, uint32)               {}
-func (c *verifConsole) Write(ch byte, fg, bg uint8, x, y uint32)       {}
-func (c *verifConsole) Palette() color.Palette                         { return nil }
-func (c *verifConsole) SetPaletteColor(uint8, color.RGBA)              {}
+type verifConsole struct {
+	verifBase
+	cells []verifCell // row-major, allocated on first use
+	draws int         // number of Write/Fill/Scroll calls received
+}
+
+var verifGeometries = [][2]int{{80, 25}, {40, 10}, {13, 4}, {7, 3}, {132, 50}, {1, 1}, {20, 2}, {3, 30}}
+
+func (c *verifConsole) geom() (int, int) {
+	g := verifGeometries[c.spec.id%len(verifGeometries)]
+	return g[0], g[1]
+}
+func (c *verifConsole) grid() []verifCell {
+	if c.cells == nil {
+		w, h := c.geom()
+		c.cells = make([]verifCell, w*h)
+		for i := range c.cells {
+			c.cells[i] = verifCell{0xfe, 0xfe, 0xfe} // never-drawn marker
+		}
+	}
+	return c.cells
+}
+func (c *verifConsole) Dimensions(d console.Dimension) (uint32, uint32) {
+	w, h := c.geom()
+	if d == console.Pixels {
+		return uint32(w * 8), uint32(h * 16)
+	}
+	return uint32(w), uint32(h)
+}
+func (c *verifConsole) DefaultColors() (uint8, uint8) { return 7, 0 }
+func (c *verifConsole) Fill(x, y, width, height uint32, fg, bg uint8) {
+	c.draws++
+	w, h := c.geom()
+	g := c.grid()
+	clamp := func(v uint32, m int) int {
+		if v == 0 {
+			return 1
+		}
+		if v >= uint32(m) {
+			return m
+		}
+		return int(v)
+	}
+	x0, y0 := clamp(x, w), clamp(y, h)
+	for cy := y0; cy <= h && uint32(cy-y0) < height; cy++ {
+		for cx := x0; cx <= w && uint32(cx-x0) < width; cx++ {
+			g[(cy-1)*w+cx-1] = verifCell{' ', fg, bg}
+		}
+	}
+}
+func (c *verifConsole) Scroll(dir console.ScrollDir, lines uint32) {
+	c.draws++
+	w, h := c.geom()
+	g := c.grid()
+	if lines < 1 || lines > uint32(h) {
+		return
+	}
+	k := int(lines)
+	switch dir {
+	case console.ScrollDirUp:
+		copy(g, g[k*w:])
+	case console.ScrollDirDown:
+		copy(g[k*w:], g[:(h-k)*w])
+	}
+}
+func (c *verifConsole) Write(ch byte, fg, bg uint8, x, y uint32) {
+	c.draws++
+	w, h := c.geom()
+	if x >= 1 && x <= uint32(w) && y >= 1 && y <= uint32(h) {
+		c.grid()[(int(y)-1)*w+int(x)-1] = verifCell{ch, fg, bg}
+	}
+}
+func (c *verifConsole) Palette() color.Palette            { return nil }
+func (c *verifConsole) SetPaletteColor(uint8, color.RGBA) {}
+
+// verifBaseConsole returns the grid console inside any of the mock console types.
+func verifBaseConsole(c interface{}) *verifConsole {
+	switch vc := c.(type) {
+	case *verifConsole:
+		return vc
+	case *verifFontConsole:
+		return &vc.verifConsole
+	case *verifLogoConsole:
+		return &vc.verifConsole
+	case *verifFontLogoConsole:
+		return &vc.verifConsole
+	}
+	return nil
+}
+
+// ---- the reference terminal, written from the text of property C17 (as in the C17 harness):
+// h+sb lines of w cells, a viewport, a cursor; CR, LF, BS, TAB, printable bytes, wrap after the last
+// column, the viewport moving down through the scrollback and then scrolling ----
+type verifRefTerm struct {
+	w, h, sb, tab int
+	fg, bg        uint8
+	lines         [][]verifCell
+	view, x, y    int
+}
+
+func newVerifRefTerm(w, h, sb, tab int, fg, bg uint8) *verifRefTerm {
+	r := &verifRefTerm{w: w, h: h, sb: sb, tab: tab, fg: fg, bg: bg, x: 1, y: 1}
+	for i := 0; i < h+sb; i++ {
+		r.lines = append(r.lines, r.blank())
+	}
+	return r
+}
+func (r *verifRefTerm) blank() []verifCell {
+	l := make([]verifCell, r.w)
+	for i := range l {
+		l[i] = verifCell{' ', r.fg, r.bg}
+	}
+	return l
+}
+func (r *verifRefTerm) lineFeed() {
+	r.x = 1
+	switch {
+	case r.y < r.h:
+		r.y++
+	case r.view+r.h < r.h+r.sb:
+		r.view++
+	default:
+		copy(r.lines[r.view:], r.lines[r.view+1:r.view+r.h])
+		r.lines[r.view+r.h-1] = r.blank()
+	}
+}
+func (r *verifRefTerm) put(ch uint8) {
+	r.lines[r.view+r.y-1][r.x-1] = verifCell{ch, r.fg, r.bg}
+	if r.x < r.w {
+		r.x++
+	} else {
+		r.lineFeed()
+	}
+}
+func (r *verifRefTerm) writeByte(b uint8) {
+	switch b {
+	case '\r':
+		r.x = 1
+	case '\n':
+		r.lineFeed()
+	case '\b':
+		if r.x > 1 {
+			r.x--
+			r.lines[r.view+r.y-1][r.x-1] = verifCell{' ', r.fg, r.bg}
+		}
+	case '\t':
+		for i := 0; i < r.tab; i++ {
+			r.put(' ')
+		}
+	default:
+		r.put(b)
+	}
+}
 
 // consoles that support loadable fonts and/or logos (console.FontSetter / console.LogoSetter)
 type verifFontConsole struct{ verifConsole }
@@ -170,29 +322,43 @@ func verifInstallCmdLine(cmdline string) {
 	multiboot.VerifResetCmdLine()
 }
 
+// verifTTY is the terminal driver handed to the HAL: a recording proxy in front of a REAL tty.VT
+// (constructed as the kernel does: NewVT(DefaultTabWidth, DefaultScrollback)); every tty.Device call is
+// recorded and forwarded, so the attached console shows what the real terminal draws.
 type verifTTY struct {
 	verifBase
+	vt       *tty.VT
 	got      []byte
 	attached []int
 	state    tty.State
 	nstate   int
 }
 
-func (t *verifTTY) Write(p []byte) (int, error) { t.got = append(t.got, p...); return len(p), nil }
-func (t *verifTTY) WriteByte(b byte) error      { t.got = append(t.got, b); return nil }
+func (t *verifTTY) Write(p []byte) (int, error) {
+	t.got = append(t.got, p...)
+	t.vt.Write(p)
+	return len(p), nil
+}
+func (t *verifTTY) WriteByte(b byte) error {
+	t.got = append(t.got, b)
+	t.vt.WriteByte(b)
+	return nil
+}
 func (t *verifTTY) AttachTo(c console.Device) {
 	id := verifConsoleID(c)
 	t.attached = append(t.attached, id)
 	t.w.events = append(t.w.events, verifEvent{2, t.spec.id, id})
+	t.vt.AttachTo(c)
 }
 func (t *verifTTY) State() tty.State { return t.state }
 func (t *verifTTY) SetState(s tty.State) {
 	t.state = s
 	t.nstate++
 	t.w.events = append(t.w.events, verifEvent{3, t.spec.id, int(s)})
+	t.vt.SetState(s)
 }
-func (t *verifTTY) CursorPosition() (uint32, uint32) { return 1, 1 }
-func (t *verifTTY) SetCursorPosition(x, y uint32)    {}
+func (t *verifTTY) CursorPosition() (uint32, uint32) { return t.vt.CursorPosition() }
+func (t *verifTTY) SetCursorPosition(x, y uint32)    { t.vt.SetCursorPosition(x, y) }
 
 type verifLogOp struct {
 	kind int
@@ -322,7 +488,7 @@ type verifRun struct {
 
 // verifExecute runs one scenario against the real hal / kfmt / device code.
 func verifExecute(sc *verifScenario, reference bool) *verifRun {
-	r := &verifRun{w: &verifWorld{ttys: map[int]*verifTTY{}}, activeTTY: -1, activeCon: -1, sinkTTY: -1}
+	r := &verifRun{w: &verifWorld{ttys: map[int]*verifTTY{}, consoles: map[int]*verifConsole{}}, activeTTY: -1, activeCon: -1, sinkTTY: -1}
 	byDriver := map[device.Driver]int{}
 	var list device.DriverInfoList
 	for _, spec := range sc.drivers {
@@ -331,21 +497,24 @@ func verifExecute(sc *verifScenario, reference bool) *verifRun {
 		var drv device.Driver
 		switch spec.kind {
 		case 0:
-			drv = &verifConsole{base}
+			drv = &verifConsole{verifBase: base}
 		case 3:
-			drv = &verifFontConsole{verifConsole{base}}
+			drv = &verifFontConsole{verifConsole{verifBase: base}}
 		case 4:
-			drv = &verifLogoConsole{verifConsole{base}}
+			drv = &verifLogoConsole{verifConsole{verifBase: base}}
 		case 5:
-			drv = &verifFontLogoConsole{verifConsole{base}}
+			drv = &verifFontLogoConsole{verifConsole{verifBase: base}}
 		case 1:
-			t := &verifTTY{verifBase: base}
+			t := &verifTTY{verifBase: base, vt: tty.NewVT(tty.DefaultTabWidth, tty.DefaultScrollback)}
 			r.w.ttys[spec.id] = t
 			drv = t
 		default:
 			drv = &verifOther{base}
 		}
 		byDriver[drv] = spec.id
+		if bc := verifBaseConsole(drv); bc != nil {
+			r.w.consoles[spec.id] = bc
+		}
 		list = append(list, &device.DriverInfo{Order: device.DetectOrder(spec.order), Probe: func() device.Driver {
 			r.w.events = append(r.w.events, verifEvent{0, spec.id, 0})
 			if !spec.probeOK {
@@ -474,7 +643,7 @@ func TestVerifC16(t *testing.T) {
 		}
 	}
 
-	var nLinked, nFailed, nOverflow int
+	var nLinked, nFailed, nOverflow, nCells, nCellDiff int
 	for _, c := range verifReadCases() {
 		curID = c.id
 		watchdog.Stop()
@@ -689,6 +858,33 @@ func TestVerifC16(t *testing.T) {
 				out.Mon(c.id, "c16:terminal-content", "terminal received %d bytes, expected %d (= newest %d of %d early bytes + %d later bytes); first difference at %d",
 					len(tt.got), len(want), len(verifSuffix(early, capacity)), len(early), len(later), k)
 			}
+			// (7) second configuration: the terminal is the real tty.VT, the console a cell grid. The cells the
+			// console shows after bring-up are what a reference terminal of the console's geometry shows
+			// after receiving newest-capacity(early log) ++ later log: nothing missing, nothing twice.
+			if cons := run.w.consoles[firstCon]; cons != nil {
+				w, h := cons.geom()
+				ref := newVerifRefTerm(w, h, int(tty.DefaultScrollback), int(tty.DefaultTabWidth), 7, 0)
+				for _, b := range want {
+					ref.writeByte(b)
+				}
+				grid := cons.grid()
+				bad := -1
+				for y := 0; y < h && bad < 0; y++ {
+					for x := 0; x < w; x++ {
+						if grid[y*w+x] != ref.lines[ref.view+y][x] {
+							bad = y*w + x
+							break
+						}
+					}
+				}
+				if bad >= 0 {
+					nCellDiff++
+					g, e := grid[bad], ref.lines[ref.view+bad/w][bad%w]
+					out.Mon(c.id, "c16:console-shows-wrong-cells", "console %d (%dx%d) after bring-up: cell (x=%d,y=%d) shows (%q,%d,%d), the reference terminal fed the %d expected bytes shows (%q,%d,%d)",
+						firstCon, w, h, bad%w+1, bad/w+1, g.ch, g.fg, g.bg, len(want), e.ch, e.fg, e.bg)
+				}
+				nCells++
+			}
 			if len(run.ring) != 0 {
 				out.Mon(c.id, "c16:ring-not-drained", "%d bytes are still in the early buffer after the hand-over (they would be shown twice)", len(run.ring))
 			}
@@ -701,6 +897,12 @@ func TestVerifC16(t *testing.T) {
 				out.Mon(c.id, "c16:early-log-lost", "early buffer holds %d bytes, expected the newest %d of %d logged bytes", len(run.ring), len(want), len(early))
 			}
 		}
+		// consoles that are not the active one are never drawn on
+		for id, cons := range run.w.consoles {
+			if (id != firstCon || firstTTY < 0) && cons.draws != 0 {
+				out.Mon(c.id, "c16:inactive-console-drawn", "console %d (not part of an active pair) received %d drawing calls", id, cons.draws)
+			}
+		}
 		// terminals that are not the active one are never touched
 		for id, tt := range run.w.ttys {
 			if id != firstTTY || firstCon < 0 {
@@ -710,5 +912,5 @@ func TestVerifC16(t *testing.T) {
 			}
 		}
 	}
-	out.Info("c16", "linked=%d failed-inits=%d early-overflow=%d capacity=%d", nLinked, nFailed, nOverflow, capacity)
+	out.Info("c16", "linked=%d failed-inits=%d early-overflow=%d capacity=%d cell-comparisons=%d cell-differences=%d", nLinked, nFailed, nOverflow, capacity, nCells, nCellDiff)
 }
